@@ -70,5 +70,7 @@ def kth_eig(V, ell, G, beta, k):
   """(k+1)-th eigenvalue of beta * V diag(ell) V^T + G G^T (float64)."""
   V = np.asarray(V, np.float64)
   M = beta * (V * np.asarray(ell, np.float64)) @ V.T + G @ G.T
+  if not np.all(np.isfinite(M)):
+    return float('nan'), np.zeros(0)
   w = np.sort(np.linalg.eigvalsh(0.5 * (M + M.T)))[::-1]
   return float(max(w[k], 0.0)) if k < len(w) else 0.0, w
